@@ -1,5 +1,5 @@
-(* SyntaxKind (only the kinds the grammar produces), the syntax ptree, and rowan's GreenNodeBuilder as used by
-   SyntaxTreeBuilder (crates/apollo-parser/src/parser/syntax_tree.rs; rowan-0.16.1 src/green/pbuilder.rs). *)
+(* SyntaxKind (only the kinds the grammar produces), the syntax tree, and rowan's GreenNodeBuilder as used by
+   SyntaxTreeBuilder (crates/apollo-parser/src/parser/syntax_tree.rs; rowan-0.16.1 src/green/builder.rs). *)
 From ApolloVerif Require Import Base.Chars Parse.Outcome.
 
 Inductive skind :=
@@ -30,7 +30,7 @@ Inductive skind :=
 | SK_INPUT_OBJECT_TYPE_DEFINITION | SK_INPUT_OBJECT_TYPE_EXTENSION | SK_INPUT_FIELDS_DEFINITION
 | SK_DIRECTIVE_DEFINITION | SK_DIRECTIVE_LOCATIONS | SK_DIRECTIVE_LOCATION.
 
-(* A green ptree: interior nodes and tokens (p_leaves carrying their text). *)
+(* A green tree: interior nodes and tokens (leaves carrying their text). *)
 Inductive ptree :=
 | PNode (k : skind) (children : list ptree)
 | PLeaf (k : skind) (text : str).
@@ -44,7 +44,7 @@ Fixpoint p_text_of (t : ptree) : str :=
 
 Definition p_texts_of (l : list ptree) : str := concat (map p_text_of l).
 
-(* the tokens of the ptree, in order *)
+(* the tokens of the tree, in order *)
 Fixpoint p_leaves (t : ptree) : list (skind * str) :=
   match t with
   | PLeaf k s => [(k, s)]
@@ -67,7 +67,7 @@ Fixpoint p_ranges (off : N) (t : ptree) : list (skind * bool * N * N) :=
 
 (* ---- GreenNodeBuilder ----
    `children` is kept in REVERSE order (the most recently pushed element first); an index i of rowan's
-   vector is position (len - 1 - i) here.  `parents` has the innermost open p_node first. *)
+   vector is position (len - 1 - i) here.  `parents` has the innermost open node first. *)
 Record pbuilder := { pb_parents : list (skind * nat); pb_children : list ptree }.
 
 Definition pb_new : pbuilder := {| pb_parents := []; pb_children := [] |}.
@@ -76,13 +76,13 @@ Definition pb_new : pbuilder := {| pb_parents := []; pb_children := [] |}.
 Definition pb_token (k : skind) (text : str) (b : pbuilder) : pbuilder :=
   {| pb_parents := pb_parents b; pb_children := PLeaf k text :: pb_children b |}.
 
-(* p_start_node(kind): parents.push((kind, children.len())) *)
+(* start_node(kind): parents.push((kind, children.len())) *)
 Definition pb_start_node (k : skind) (b : pbuilder) : pbuilder :=
   {| pb_parents := (k, length (pb_children b)) :: pb_parents b; pb_children := pb_children b |}.
 
-(* p_finish_node(): let (kind, first_child) = parents.pop().unwrap();
-                  p_node = cache.node(kind, &mut children, first_child)  -- children.drain(first_child..)
-                  children.push(p_node) *)
+(* finish_node(): let (kind, first_child) = parents.pop().unwrap();
+                  node = cache.node(kind, &mut children, first_child)  -- children.drain(first_child..)
+                  children.push(node) *)
 Definition pb_finish_node (b : pbuilder) : poutcome pbuilder :=
   match pb_parents b with
   | [] => PPanic PnBuilderFinishNode
@@ -109,12 +109,12 @@ Definition pb_start_node_at (cp : nat) (k : skind) (b : pbuilder) : poutcome pbu
     | [] => POk {| pb_parents := (k, cp) :: pb_parents b; pb_children := pb_children b |}
     end.
 
-(* p_finish(): assert_eq!(children.len(), 1); the element must be a p_node.  (`parents` is not inspected.) *)
+(* finish(): assert_eq!(children.len(), 1); the element must be a node.  (`parents` is not inspected.) *)
 Definition pb_finish (b : pbuilder) : poutcome ptree :=
   match pb_children b with
   | [PNode k c] => POk (PNode k c)
   | _ => PPanic PnBuilderFinish
   end.
 
-(* the text the pbuilder holds so far: every element of `children`, oldest first *)
+(* the text the builder holds so far: every element of `children`, oldest first *)
 Definition pb_text (b : pbuilder) : str := p_texts_of (rev (pb_children b)).
